@@ -1134,6 +1134,13 @@ func (g *generatorObject) _return(v Value) Value {
 
 	g.gen.returning = v
 	g.state = genStateExecuting
+	defer func() {
+		// an exception thrown while the open iterators are closed (or an interrupt) leaves through a panic:
+		// the generator is finished then, not 'executing' for ever
+		if g.state == genStateExecuting {
+			g.state = genStateCompleted
+		}
+	}()
 	g.gen.enterNext()
 	aborted := true
 	defer g.gen.unwind(&aborted)
